@@ -42,16 +42,16 @@ def _on_alarm(signum, frame):
 
 
 def install_alarm():
-    signal.signal(signal.SIGALRM, _on_alarm)
+    signal.signal(signal.SIGVTALRM, _on_alarm)
 
 
 def timed(f, *args, **kw):
-    """run f under a wall-clock limit (raises Timeout)"""
-    signal.setitimer(signal.ITIMER_REAL, REAL_TIMEOUT)
+    """run f under a CPU-time limit (raises Timeout)"""
+    signal.setitimer(signal.ITIMER_VIRTUAL, REAL_TIMEOUT)
     try:
         return f(*args, **kw)
     finally:
-        signal.setitimer(signal.ITIMER_REAL, 0)
+        signal.setitimer(signal.ITIMER_VIRTUAL, 0)
 
 
 def tup(x):
